@@ -244,15 +244,18 @@ void h_buffer_push(void) {
   CANARY_SMALL(in_alloc <= 64);
 }
 
-void h_buffer_append(void) {
-  MK_BUF(z); MK_SRC(x, VERIF_OBJ_MAX);
-  ldb_buffer_append(&z, x.data, x.size);
-  CHK_RI(z, "buffer_append");
-  CHECK(z.size == in_size + in_xn, "buffer_append: size grows by the appended length");
-  CHK_KEEP(z, "buffer_append");
-  CHECK(!(in_k < in_xn) || z.data[in_size + in_k] == src[in_k], "buffer_append: appended bytes land at [old size, old size + n)");
-  CANARY_SMALL(in_alloc <= 64 && in_xn <= 64);
+#define H_BUFFER_APPEND(fname, cap, srccap) void fname(void) { \
+  MK_BUF_CAP(z, cap); MK_SRC(x, srccap); \
+  ldb_buffer_append(&z, x.data, x.size); \
+  CHK_RI(z, "buffer_append"); \
+  CHECK(z.size == in_size + in_xn, "buffer_append: size grows by the appended length"); \
+  CHK_KEEP(z, "buffer_append"); \
+  CHECK(!(in_k < in_xn) || z.data[in_size + in_k] == src[in_k], "buffer_append: appended bytes land at [old size, old size + n)"); \
+  CANARY_SMALL(in_alloc <= 64 && in_xn <= 64); \
 }
+H_BUFFER_APPEND(h_buffer_append, VERIF_OBJ_MAX, VERIF_OBJ_MAX)
+/* twin with small sizes: counterexample traces of the unbounded unit can exceed the trace printer's memory */
+H_BUFFER_APPEND(h_buffer_append_b, 4096, 4096)
 
 void h_buffer_concat(void) {
   MK_BUF(z); MK_SRC(x, VERIF_OBJ_MAX);
